@@ -9,7 +9,7 @@
    - one identity that owns every object under the default policy, so
      _get_object_with_access_controls fails only when the uid does not exist;
    - creation requests (Create / CreateKeyPair / Register / the template of
-     DeriveKey) are well formed, so creation succeeds;
+     DeriveKey, except its Cryptographic Length) are well formed, so creation succeeds;
    - cryptographic results are not modelled: [cok] is an oracle input that says
      whether the CryptographyEngine call of this step returned (true) or raised
      (false); the model decides WHETHER that call is reached.
@@ -61,13 +61,15 @@ Definition bSIGN := 0.  Definition bVERIFY := 1.  Definition bENCRYPT := 2.  Def
 Definition bWRAP_KEY := 4.  Definition bMAC_GENERATE := 7.  Definition bDERIVE_KEY := 9.
 Definition has_bit (m b : Z) : bool := Z.testbit m b.
 
-Record obj := mkobj { uid : Z; oty : otype; ost : option state; omask : Z }.
+(* oval: the stored value is not empty (only DeriveKey with Cryptographic Length 0 stores an empty one) *)
+Record obj := mkobj { uid : Z; oty : otype; ost : option state; omask : Z; oval : bool }.
 Record store := mkstore { objs : list obj; next_uid : Z }.
 
 Definition empty_store (first : Z) : store := mkstore [] first.
 
-Definition new_obj (u : Z) (t : otype) (m : Z) : obj :=
-  if has_state t then mkobj u t (Some PreActive) m else mkobj u t None 0.
+Definition new_objv (u : Z) (t : otype) (m : Z) (v : bool) : obj :=
+  if has_state t then mkobj u t (Some PreActive) m v else mkobj u t None 0 v.
+Definition new_obj (u : Z) (t : otype) (m : Z) : obj := new_objv u t m true.
 
 Fixpoint lookup (u : Z) (l : list obj) : option obj :=
   match l with
@@ -76,12 +78,13 @@ Fixpoint lookup (u : Z) (l : list obj) : option obj :=
   end.
 
 Definition set_state (u : Z) (st : state) (l : list obj) : list obj :=
-  map (fun o => if uid o =? u then mkobj (uid o) (oty o) (Some st) (omask o) else o) l.
+  map (fun o => if uid o =? u then mkobj (uid o) (oty o) (Some st) (omask o) (oval o) else o) l.
 
 Definition remove_uid (u : Z) (l : list obj) : list obj := filter (fun o => negb (uid o =? u)) l.
 
-Definition add_obj (s : store) (t : otype) (m : Z) : store :=
-  mkstore (objs s ++ [new_obj (next_uid s) t m]) (next_uid s + 1).
+Definition add_objv (s : store) (t : otype) (m : Z) (v : bool) : store :=
+  mkstore (objs s ++ [new_objv (next_uid s) t m v]) (next_uid s + 1).
+Definition add_obj (s : store) (t : otype) (m : Z) : store := add_objv s t m true.
 
 (* ------------------------------------------------------------------ operations and outcomes *)
 Inductive op :=
@@ -96,14 +99,19 @@ Inductive op :=
 | Sign (u : Z) (params : bool)
 | SignatureVerify (u : Z) (params : bool)
 | MAC (u : Z) (alg data : bool)
-| DeriveKey (us : list Z) (m : Z)
+| DeriveKey (us : list Z) (m : Z) (len : Z)        (* len: the Cryptographic Length of the template, in bits *)
 | GetWrap (u w : Z)
-| ForeignUse (u : Z).     (* Activate / Revoke / Destroy of u sent by an identity that does not own it *)
+| ForeignUse (u : Z)      (* Activate / Revoke / Destroy of u sent by an identity that does not own it *)
+| AttrWrite (u : Z)       (* SetAttribute / ModifyAttribute / DeleteAttribute of a lifecycle attribute of u (State, Activation
+                             Date, Deactivation Date, Compromise (Occurrence) Date, Destroy Date, Process Start / Protect Stop Date) *)
+| CreateRejected.         (* Create / Register whose template carries one of those attributes *)
 
 (* which guard refused *)
 Inductive refusal := RNotFound | RNoState | RState | RType | RMask | RWrapKeyMissing | RParams.
 (* the KMIP result reason the exception class carries *)
-Inductive reason := ItemNotFound | PermissionDenied | IllegalOperation | InvalidField.
+(* AttrRule: refused by the attribute rules - unsupported (InvalidField), not set (InvalidField / AttributeNotFound),
+   read-only (PermissionDenied / ReadOnlyAttribute), required (PermissionDenied); one class for the correspondence *)
+Inductive reason := ItemNotFound | PermissionDenied | IllegalOperation | InvalidField | AttrRule.
 
 Inductive outcome :=
 | OK                                   (* SUCCESS *)
@@ -122,7 +130,7 @@ Definition refusal_eqb (a b : refusal) : bool :=
 Definition reason_eqb (a b : reason) : bool :=
   match a, b with
   | ItemNotFound, ItemNotFound | PermissionDenied, PermissionDenied | IllegalOperation, IllegalOperation
-  | InvalidField, InvalidField => true
+  | InvalidField, InvalidField | AttrRule, AttrRule => true
   | _, _ => false
   end.
 Definition outcome_eqb (a b : outcome) : bool :=
@@ -136,7 +144,7 @@ Definition outcome_eqb (a b : outcome) : bool :=
    (encrypt decrypt sign verify_signature mac derive_key wrap_key) *)
 Definition gated (o : op) : bool :=
   match o with
-  | Encrypt _ _ | Decrypt _ _ | Sign _ _ | SignatureVerify _ _ | MAC _ _ _ | DeriveKey _ _ | GetWrap _ _ => true
+  | Encrypt _ _ | Decrypt _ _ | Sign _ _ | SignatureVerify _ _ | MAC _ _ _ | DeriveKey _ _ _ | GetWrap _ _ => true
   | _ => false
   end.
 (* was that method entered? *)
@@ -220,6 +228,7 @@ Definition step (cok : bool) (s : store) (o : op) : outcome * store :=
       | None => (Refused RNotFound ItemNotFound, s)
       | Some ob =>
           if negb (alg || is_key (oty ob)) then (Refused RParams PermissionDenied, s)
+          else if negb (oval ob) then (Refused RParams PermissionDenied, s)      (* "A secret key value must be specified" *)
           else if negb data then (Refused RParams PermissionDenied, s)
           else if negb (mac_kind_b (oty ob)) then (Refused RType PermissionDenied, s)
           else match ost ob with
@@ -230,13 +239,16 @@ Definition step (cok : bool) (s : store) (o : op) : outcome * store :=
                    else if cok then (OK, s) else (CryptoFail, s)
                end
       end
-  | DeriveKey us m =>
+  | DeriveKey us m len =>
       match derive_bases s us with
       | Some r => (r, s)
       | None =>
           match us with
           | [] => (CrashBefore, s)                   (* existing_objects[0]: IndexError *)
-          | _ => if cok then (OK, add_obj s SymmetricKey m) else (CryptoFail, s)
+          | _ =>
+              if len <? 0 then (Refused RParams InvalidField, s)                   (* since /repo 02e2981 *)
+              else if negb (len mod 8 =? 0) then (Refused RParams InvalidField, s)
+              else if cok then (OK, add_objv s SymmetricKey m (negb (len =? 0))) else (CryptoFail, s)
           end
       end
   | GetWrap u w =>
@@ -262,6 +274,14 @@ Definition step (cok : bool) (s : store) (o : op) : outcome * store :=
       | None => (Refused RNotFound ItemNotFound, s)
       | Some _ => (Refused RNotFound PermissionDenied, s)
       end
+  | AttrWrite u =>
+      (* the object is looked up first; then every lifecycle attribute is refused by the attribute rules: the State
+         column has no writer among the attribute operations *)
+      match lookup u (objs s) with
+      | None => (Refused RNotFound ItemNotFound, s)
+      | Some _ => (Refused RParams AttrRule, s)
+      end
+  | CreateRejected => (Refused RParams AttrRule, s)      (* "The <name> attribute is unsupported."; nothing is stored *)
   end.
 
 (* a history is a list of operations, each with its crypto-oracle input *)
